@@ -176,9 +176,37 @@ def enumerate_cases(tier, shard=0, nshards=1):
         for n in (2, 3):
             for items in itertools.permutations(range(len(ORDER_POOL)), n):
                 out.append({'k': 'order', 'fn': fn, 'items': list(items)})
+    # many ELEMENTS in few arguments: ranges of 255, 256, 257, 300 and 700
+    # cells (the limit of 255 is on arguments, not on cells)
+    for fn in ('AND', 'OR'):
+        for n in (255, 256, 257, 300, 700):
+            for decided_at in (None, n, n // 2):
+                out.append({'k': 'many', 'fn': fn, 'n': n,
+                            'decided_at': decided_at})
     for i, c in enumerate(out):
         if i % nshards == shard:
             yield c
+
+
+def _many_case(case, res):
+    fn, n, at = case['fn'], case['n'], case['decided_at']
+    neutral = (fn == 'AND')          # TRUE never decides AND, FALSE never OR
+    cells = {}
+    for i in range(1, n + 1):
+        v = neutral if i != at else (not neutral)
+        cells['Sheet1!H%d' % i] = 1 if v else 0
+    text = '=%s(H1:H%d)' % (fn, n)
+    text2 = '=IF(%s(H1:H%d,H1:H%d),"y","n")' % (fn, n // 2, n)
+    want = neutral if at is None else (not neutral)
+    res.nontrivial = True
+    res.labels = ('many', fn)
+    for f, w in ((text, ('B', want)), (text2, ('T', 'y' if want else 'n'))):
+        o = lib.eval_formula(f, cells, addr='Sheet1!Q1')[0]
+        if o != w:
+            res.fail('many-elements:%s:%s' % (fn, 'n>255' if n > 255
+                                              else 'n<=255'), w, o, f)
+            break
+    return res
 
 
 # (formula text, value) over A1 TRUE, A2 FALSE, A3 0, A4 5, C2 0, D1 2,
@@ -485,6 +513,8 @@ def judge(case):
     res = Result()
     if case.get('k') == 'order':
         return _order_case(case, res)
+    if case.get('k') == 'many':
+        return _many_case(case, res)
     tree = case['tree']
     xl = lib.lib()
     FNSPELL[0] = case.get('fnspell', 0)
